@@ -66,4 +66,6 @@ def run(c):
                     "metric entries of parents that cannot be added are fixed to 0 in the enumeration (they cannot influence a valid result)",
                     "the specification's metric values {0,1,2} are ranks; the harness embeds them into uint64 through seven strictly "
                     "increasing maps (small, around 2^31/2^32, 2^63 or more apart, up to MaxUint64), one per run in rotation",
+                    "every second run uses long-lived MetricStrategy objects shared by all cases and runs (their metric function reads "
+                    "the table of the selection in progress); the relation judges every selection on its own",
                     "distinct_nontrivial = cases in which the repeated runs produced more than one result (map-order nondeterminism observed)"])
